@@ -290,7 +290,8 @@ package server
 //@ func (*Namespace).GetSlice
 //@   requires n != nil
 //@   assigns \nothing
-//@   ensures ret0 == n.slices[name]
+//@   ensures has(n.slices, name) ==> ret0 == n.slices[name]
+//@   ensures !has(n.slices, name) ==> ret0 == nil
 
 // inside a transaction a slice is served by ONE master connection: the pinned one when the slice is already part of the
 // transaction, otherwise a connection freshly taken from the slice's master pool, prepared (session variables, then BEGIN or
